@@ -22,9 +22,9 @@ type CaptureLogger struct {
 }
 
 type logSink struct {
-	Records []LogRecord
-	Max     int
-	Infos   int64
+	Records  []LogRecord
+	Max      int
+	Infos    int64
 	KeepInfo bool
 }
 
